@@ -64,7 +64,15 @@ class Concretizer:
 
     def string(self, s):
         if isinstance(s, str): return s
-        if isinstance(s, FmtStr): return "".join(self.string(p[1] if isinstance(p, tuple) and p and p[0] == "arg" else p) if not isinstance(p, int) else str(p) for p in s.parts)
+        if isinstance(s, FmtStr):
+            out = []
+            for p in s.parts:
+                if isinstance(p, tuple) and len(p) == 2 and p[0] == "arg": p = p[1]
+                try:
+                    out.append(str(p) if isinstance(p, int) and not isinstance(p, bool) else self.string(p))
+                except Unsupported:
+                    out.append(repr(p))
+            return "".join(out)
         if is_int(s): return str(self.ev(s))
         a = self.ctx.atom_of(s)
         if a.idx not in self.strings:
